@@ -51,6 +51,21 @@ CLAIMED["C08"] = dict(
     note="Trusted: the reference-graph extraction (mc/props/c08.py). Bounded: <= 3 referrers, 2-3 gradients.",
     design="DESIGN.md 3/C08",
 )
+CLAIMED["C14"] = dict(
+    level="exploration",
+    technique="deviation-bounded exhaustive metamorphic enumeration: all single (and all pairs of) noise insertions at every tree position of a base corpus; oracle = canonical equality of conversions",
+    text="For every base document (24 generated + repository inputs) every single insertion of every ignorable-content kind at every tree position (thorough: every pair of insertions on the generated set) is converted and compared, after canonical gradient-id relabelling, with the conversion of the clean document. Exhaustive within 1 (2) deviations.",
+    note="Trusted: noise construction via lxml and the canonical form in mc/props/c14.py. Unused xmlns declarations are reported, not judged.",
+    design="DESIGN.md 3/C14",
+)
+CLAIMED["C07"] = dict(
+    level="model_checking",
+    engine="E1",
+    technique="explicit-state exploration of the conversion function's state graph (documents as states, convert as the only action) from every root of the enumerated corpora; fixed-point invariant checked on every chain",
+    text="The graph root -> out1 -> out2 -> out3 is explored from every document of the enumerated corpora (C01/C08 grammars, rendering corpora, repository files) at ndigits 3 and a cross-section of all ndigits; the invariant out2 == out1 == out3 (bytes) and checkpicosvg(out1) == () is evaluated on every chain. States and transitions are counted; every transition is an execution of the implementation.",
+    note="Trusted: nothing beyond byte comparison. Bounded by the corpora, which are exhaustive enumerations of their grammars.",
+    design="DESIGN.md 3/C07",
+)
 NOT_YET = "check not built yet in this session (design in DESIGN.md section 3); no claim is made"
 
 checks = []
